@@ -276,6 +276,23 @@ ADDENDA_R4 = {
  "C17": "Every call compared with its result in a brand-new interpreter; callers editing returned values in place; the same call 200 times then every other call; signedness twins, LazyBound, context-dependent encoders, region reuse in the alphabet and the thread pairs.",
  "C20": "Entries named like every public dict/Container method; deep copies over exotic leaves (bytearray, set, array, ordinary objects, tuples holding them) at depth 1..3; hexdump lengths around 16**4 for six line sizes.",
 }
+ADDENDA_R5 = {
+ "C01": "The text axis (23 texts x 11 string framings x 14 encoding names).",
+ "C02": "The text axis: 60+ well-formed, borderline and malformed byte sequences per code-unit size through every string framing.",
+ "C03": "The text axis (texts, unencodable texts, raw sequences; reference = CPython codec + framing rules).",
+ "C04": "All-anonymous Struct/Sequence scopes; look-ahead over failing members; many members/labels/cases; deep nesting.",
+ "C05": "Two-level index-dependent sizes.",
+ "C06": "Truncation of pads and raw regions beyond 2**20 bytes.",
+ "C07": "Members named like Python keywords (class_, in_ ...); downward references this.hdr._n.",
+ "C09": "GreedyRange over zero-width index-dependent elements entered at every offset including the end.",
+ "C11": "Float contexts for every two-operator arithmetic tree; slice subscripts with every start/stop/step over {None,0,1,2,-1}.",
+ "C15": "Streams of several concatenated compressed members (oracle: the codec's decompress); XOR beyond 2**20 bytes.",
+ "C16": "Positions behind 2**32 and 2**63 through window streams.",
+ "C17": "All entry points on inputs of 2**20 bytes with seeks beyond the end, and through window streams at positions behind 2**32 / 2**63.",
+ "C19": "If/IfThenElse over float comparisons with NaN, infinities, signed zero among the inputs.",
+}
+for _k, _v in ADDENDA_R5.items():
+    ADDENDA_R4[_k] = (ADDENDA_R4[_k] + " " if _k in ADDENDA_R4 else "") + _v
 for _k, _v in ADDENDA_R4.items():
     ADDENDA[_k] = (ADDENDA[_k] + " " if _k in ADDENDA else "") + _v
 
